@@ -35,7 +35,7 @@ var c16Sources = map[string]string{
 	"grok.p":  "add_pattern(\"wd\", \"[a-z]+\")\nok = grok(_, \"%{wd:w} %{INT:n:int}\")\nadd_key(ok)\nif ok { p(w, n) }\n",
 	"use.p":   "p(0)\nuse(\"plain.p\")\nuse(\"grok.p\")\np(1)\n",
 	"loop.p":  "n = 0\nfor j = 0; j < 5; j = j + 1 { n = n + j\nif n > 3 { continue } }\nadd_key(n)\nl = [1, 2, 3]\nl[0] = n\ng = [[0, 0], [1]]\ng[0][0] += n\nmm = {\"k\": [0]}\nmm[\"k\"][0] += 1\np(l[0:2], {\"a\": l}, g, mm)\ndefault_time(ts, \"America/New_York\")\nreplace(message, \"h(e)\", \"$1\")\nsecret = \"left behind by a failed run\"\nfor q in [1] { if q == 1 { p(1 / nosuchkey) } }\n",
-	"all.p": "add_key(a1, 1)\nrename(a2, a1)\ncast(a2, \"str\")\nuppercase(message)\ntrim(message)\nreplace(message, \"L+\", \"l\")\nurl_decode(message)\nstrfmt(s1, \"%v-%d\", a2, 3)\n" +
+	"all.p": "add_key(a1, 1)\nrename(a2, a1)\ncast(a2, \"str\")\nuppercase(message)\ntrim(message)\nreplace(message, \"L+\", \"l\")\nurl_decode(message)\nstrfmt(s1, \"%v-%d-%s\", a2, 3, message)\n" +
 		"set_measurement(\"mm\")\ndrop_key(a2)\nj = load_json(\"[1, {\\\"a\\\": 2}]\")\np(len(j), j[1][\"a\"], get_key(s1))\nxml(xm, \"/a/b\", xb)\nsql_cover(sq)\ndatetime(ep, \"s\", \"RFC3339\")\ndefault_time(ts, \"Asia/Shanghai\")\ndefault_time(ts2)\n" +
 		"if \"a\" in \"abc\" && 1 in [1] { p(-1 % 2 == -1) }\n",
 }
@@ -45,6 +45,9 @@ var c16Fresh int64
 
 // SQL texts by slot: the first makes a shared tokenizer switch its escape mode, the others read differently in the two modes
 var c16SQL = []string{`select * from t where dir = 'C:\tmp\'`, `select "C:\data\logs.csv" from t where id = 5`, "SELECT 'a\\' , b -- '\nFROM t"}
+
+// a text whose diagnostic is recorded by a node constructor and whose parse then recovers from a nil node
+var c16RecoverSrc = "x = 1\nfor y in 1/0 { p(y) }\nz = -1e\n"
 
 var c16BadSrc = "a = (1 +\n\"unterminated\nb = -0x\n"
 
@@ -108,7 +111,7 @@ func c16Ops() []c16Op {
 		}
 		return fmt.Sprintf("trace=%v err=%v", res.Trace, res.Err)
 	}}
-	return []c16Op{parseOp("valid", c16ParseSrc), parseOp("bad", c16BadSrc), loadOther, loadFresh, runOp("plain.p"), runOp("grok.p"), runOp("use.p"), runOp("loop.p"), runOp("all.p")}
+	return []c16Op{parseOp("valid", c16ParseSrc), parseOp("bad", c16BadSrc), parseOp("recovering", c16RecoverSrc), loadOther, loadFresh, runOp("plain.p"), runOp("grok.p"), runOp("use.p"), runOp("loop.p"), runOp("all.p")}
 }
 
 func c16Load() (*c16Env, error) {
